@@ -17,3 +17,14 @@ impl<T> HalfLock<T> {
         self.write_mutex.id
     }
 }
+
+impl<T> HalfLock<T> {
+    /// Harness: start from an arbitrary generation value.
+    pub(crate) fn verif_set_generation(&self, g: usize) {
+        self.generation.store(g, super::Ordering::SeqCst);
+    }
+    /// Harness: the writer mutex was poisoned by an earlier panic.
+    pub(crate) fn verif_poison(&self) {
+        self.write_mutex.verif_poison();
+    }
+}
